@@ -12,6 +12,9 @@ from .C20 import is_mpilot_error, total
 
 def run(ctx, idx):
     A = K.anchors(idx)
+    from .C14 import rule_d as _computed_attrs
+
+    _computed_attrs(ctx, idx, A, rule="C13.f")
     ctx.assume("operation table of Engine D (see C20); third-party code raises nothing on well-typed arguments; six.raise_from and sys.exit do not return")
     ctx.rule("C13.a", "Cleaners are total: for every Parameter.clean and every raw kind the escape set ⊆ subclasses of MPilotError.")
     ctx.rule("C13.b", "Run boundary: Command.run's try covers validate_params and execute, catches Exception, re-raises MPilotError unchanged and raises UnexpectedError (a ProgramError) from everything else; inside any handler an attribute read on the caught error exists for every class the handler admits; every explicit raise reachable from from_source / Program.run outside that handler is SyntaxError or an MPilotError subclass.")
